@@ -10,6 +10,9 @@ import (
 	"sort"
 	"strings"
 	"testing"
+	"time"
+
+	"github.com/nspcc-dev/bbolt"
 
 	objectcore "github.com/nspcc-dev/neofs-node/pkg/core/object"
 	"github.com/nspcc-dev/neofs-node/pkg/local_object_storage/engine"
@@ -222,6 +225,13 @@ func record(rec *ev.Recorder, w World, e Expect, single bool) {
 	}
 }
 
+// fastBolt keeps bbolt from re-mapping the file while it grows (munmap is
+// expensive on a busy many-core machine) and from syncing a tmpfs file.
+// Neither changes what the metabase stores or lists.
+func fastBolt() meta.Option {
+	return meta.WithBoltDBOptions(&bbolt.Options{Timeout: time.Second, InitialMmapSize: 4 << 20, NoSync: true, NoGrowSync: true})
+}
+
 func must(t *rapid.T, what string, err error) {
 	if err != nil {
 		t.Fatalf("setup: %s: %v", what, err)
@@ -244,7 +254,7 @@ func TestC06Meta(t *testing.T) {
 			ev.Inconclusive("mkdtemp: %v", err)
 		}
 		defer os.RemoveAll(dir)
-		db, err := stor.OpenMeta(filepath.Join(dir, "meta"), &stor.Epoch{})
+		db, err := stor.OpenMeta(filepath.Join(dir, "meta"), &stor.Epoch{}, fastBolt())
 		must(t, "open metabase", err)
 		defer db.Close()
 
@@ -295,7 +305,7 @@ func TestC06Shard(t *testing.T) {
 			ev.Inconclusive("mkdtemp: %v", err)
 		}
 		defer os.RemoveAll(dir)
-		sh, err := stor.OpenShard(stor.ShardCfg{Dir: dir, Epoch: &stor.Epoch{}, WriteCache: rapid.Bool().Draw(t, "write-cache")})
+		sh, err := stor.OpenShard(stor.ShardCfg{Dir: dir, Epoch: &stor.Epoch{}, WriteCache: rapid.Bool().Draw(t, "write-cache"), MetaOpts: []meta.Option{fastBolt()}})
 		must(t, "open shard", err)
 		defer sh.Close()
 
@@ -394,7 +404,7 @@ func TestC06Engine(t *testing.T) {
 		ep := &stor.Epoch{}
 		var cfgs []stor.ShardCfg
 		for i := 0; i < w.NShards; i++ {
-			cfgs = append(cfgs, stor.ShardCfg{Dir: filepath.Join(dir, fmt.Sprint(i)), Epoch: ep})
+			cfgs = append(cfgs, stor.ShardCfg{Dir: filepath.Join(dir, fmt.Sprint(i)), Epoch: ep, MetaOpts: []meta.Option{fastBolt()}})
 		}
 		en, err := stor.OpenEngine(cfgs)
 		must(t, "open engine", err)
